@@ -92,6 +92,51 @@ def group_literal(g) -> str:
     return f"({flit(g['gamma'])}, {flit(g['u'])}, {flit(g['dt'])},\n  {coq_list(sites, per_line=1)})"
 
 
+def double_root_groups(rng):
+    """Sites whose computed z, w have a discriminant that is EXACTLY zero (a real positive double root): psi = 1,
+    gamma = 1, mu = 0, eps = 1, u = dt = 1 give z = 1/2 and w = 3/2 + fl(sqrt 2) * (L psi); the Laplacian action is
+    searched (neighbouring floats) so that the computed w is exactly a point of the parabola 2 Re w + 1 = (Im w)^2."""
+    from fractions import Fraction
+    k = float(np.sqrt(2.0))
+
+    def solve_scalar(target):
+        if target == 0:
+            return 0.0
+        x = target / k
+        for direction in (np.inf, -np.inf):
+            y = x
+            for _ in range(200):
+                if k * y == target:
+                    return float(y)
+                y = float(np.nextafter(y, direction))
+        return None
+    out = []
+    for wi in (1.0, -1.0, 2.0, 0.0, 3.0, 0.5, -1.5, 4.0):
+        wr = (wi * wi - 1.0) / 2.0
+        lr, li = solve_scalar(wr - 1.5), solve_scalar(wi)
+        if lr is None or li is None:
+            continue
+        lap = complex(lr, li)
+        # check in floating point (the documented formula, as the implementation evaluates it) and exactly on those floats
+        w = 0.5 * 1.0 + 1.0 * (1.0 + 1.0 * k * ((1.0 - 1.0) * 1.0 + lap))
+        c = w.real * 0.5
+        Df = (2 * c + 1) ** 2 - 4 * 0.25 * abs(w) ** 2
+        De = (2 * Fraction(w.real) * Fraction(1, 2) + 1) ** 2 - (Fraction(w.real) ** 2 + Fraction(w.imag) ** 2)
+        if w != complex(wr, wi) or Df != 0.0 or De != 0:
+            continue
+        out.append(dict(n=1, gamma=1.0, u=1.0, dt=1.0, psi=[1 + 0j], M=[[lap]], mu=[0.0], eps=[1.0], kind="double-root",
+                        expect=[(complex(-1.0, wi), 1.0 + wi * wi)]))
+        # ... and next to ordinary sites
+        n = rng.randint(2, 4)
+        M = [[0j] * n for _ in range(n)]
+        M[0][0] = lap
+        for j in range(1, n):
+            M[j][j] = complex(rng.uniform(-0.2, 0.2), rng.uniform(-0.2, 0.2))
+        out.append(dict(n=n, gamma=1.0, u=1.0, dt=1.0, psi=[1 + 0j] * n, M=M, mu=[0.0] * n, eps=[1.0] * n, kind="double-root",
+                        expect=[(complex(-1.0, wi), 1.0 + wi * wi)]))
+    return out
+
+
 # ------------------------------------------------------------- exact oracle
 def D_(x):
     return Decimal(float(x))
@@ -265,13 +310,35 @@ def run(rep: common.Report, tier: str, seed: int, replay=None) -> int:
         for gam in (0.0, 1.0, 10.0):
             corpus.append(dict(n=1, gamma=gam, u=5.79, dt=1e-3, psi=[complex(mag, 0)], M=[[0j]],
                                mu=[0.3], eps=[1.0], kind="corpus"))
-    groups = corpus + groups
+    dr = double_root_groups(rng)
+    groups = corpus + dr + groups
     results = []
     stats = {"answered": 0, "refused": 0, "border": 0, "bad": 0}
     kinds_count = {}
     for gi, g in enumerate(groups):
         res = run_impl(g)
         results.append(res)
+        if g["kind"] == "double-root":
+            # the discriminant of the computed z, w is exactly zero: a solution exists, the update must be answered with it
+            case = {"group": gi, "kind": "double-root", "M": [[str(c) for c in row] for row in g["M"]]}
+            if res is None:
+                rep.violation("update refused although the discriminant of the computed z, w is exactly zero at one site "
+                              "(real positive double root) and positive at the others", case)
+                verdict = "bad"
+            else:
+                (pe, xe), = g["expect"]
+                if abs(complex(res[0][0]) - pe) > 1e-12 or abs(float(res[1][0]) - xe) > 1e-12:
+                    rep.violation(f"double root answered with psi' = {complex(res[0][0])!r}, |psi'|^2 = {float(res[1][0])!r}; "
+                                  f"expected {pe!r}, {xe!r}", case)
+                    verdict = "bad"
+                else:
+                    verdict = "answered"
+            stats[verdict] += 1
+            kinds_count[g["kind"]] = kinds_count.get(g["kind"], 0) + 1
+            g["verdict"] = verdict
+            rep.count(g["n"])
+            rep.nontrivial(("double-root", g["n"]))
+            continue
         verdict = check_oracle(rep, g, res, gi)
         stats[verdict] += 1
         kinds_count[g["kind"]] = kinds_count.get(g["kind"], 0) + 1
